@@ -368,11 +368,17 @@ pub const INJECTORS: &[Inj] = &[
         name: "wrong-signature",
         stage: Stage::Signature,
         apply: |b, r| {
-            b.ov.signature = Some(match r.below(4) {
+            b.ov.signature = Some(match r.below(9) {
                 0 => "0".repeat(64),
                 1 => r.string_from("0123456789abcdef", 64),
                 2 => "invalid".to_string(),
-                _ => r.string_from("0123456789abcdef", 63),
+                3 => r.string_from("0123456789abcdef", 63),
+                // impossible lengths: still a wrong signature, still the last check
+                4 => String::new(),
+                5 => r.string_from("0123456789abcdef", 65),
+                6 => r.string_from("0123456789abcdef", 128),
+                7 => "f".to_string(),
+                _ => r.string_from("0123456789ABCDEFxyz-", 64),
             });
             true
         },
